@@ -340,6 +340,19 @@ def run_fetch(spec, fsdir, rng=None, latencies=None, config=None, step_cap=20000
                 outcome["tb"] = traceback.format_exc()[-1200:]
 
         g = gevent.spawn(target)
+        import signal
+
+        class HangDetected(BaseException):
+            pass
+
+        def on_alarm(signum, frame):
+            outcome["hang"] = True
+            raise HangDetected()
+
+        # "fetching terminates": a fetcher that spins without ever yielding cannot be caught by
+        # the step cap; 30 s of real time for one simulated fetch (normally ~0.2 s) is a hang
+        old_handler = signal.signal(signal.SIGALRM, on_alarm)
+        signal.setitimer(signal.ITIMER_REAL, float((config or {}).get("hang_after_s", 30)))
         try:
             while True:
                 gevent.idle()
@@ -355,13 +368,20 @@ def run_fetch(spec, fsdir, rng=None, latencies=None, config=None, step_cap=20000
                     break
                 sim.steps += 1
                 sim.release_next()
+        except HangDetected:
+            pass
         finally:
+            signal.setitimer(signal.ITIMER_REAL, 0)
+            signal.signal(signal.SIGALRM, old_handler)
             if not g.dead:
                 g.kill(block=False)
                 gevent.idle()
             # nothing of this run may stay parked or runnable
             for item in sim.heap:
                 pass
+        if outcome.get("hang"):
+            violation = Violation("T-term", "fetch does not terminate: the fetcher kept the CPU for a long stretch of real time "
+                                  "without yielding (busy loop) in a simulated fetch that normally takes a fraction of a second")
         if violation is None and "error" in outcome:
             violation = Violation("T-term", f"make_nuwiki raised {outcome['error']}", detail={"tb": outcome.get("tb")})
         if violation is None:
